@@ -206,3 +206,99 @@ def r_pair_value_providers(ctx, rule: str) -> List[Ob]:
             else:
                 obs.append(inconclusive(rule, t, f.loc(r), res[9:], construct=f"{fn}::pair-result::{k}"))
     return obs
+
+
+# ======================================================================================
+# what a kernel is given: the trains' own arrays and edges
+# ======================================================================================
+def r_kernel_arguments(ctx, rule: str, modules=None) -> List[Ob]:
+    """Every call of a backend kernel from the measure modules passes, as its two spike arrays, `<train>.spikes` or
+    `<train>.get_spikes_non_empty()` of a train variable (a parameter, a reconciled pair, an element of the train
+    list) - possibly through a local bound once to exactly that - and, as its edges, `<train>.t_start` / `<train>.t_end`
+    of one of those trains.  The kernels are written for *all* spikes of a train on *its* interval (edge rules, auxiliary
+    spikes, multiplicity of the edge entries): a slice, a filter, a window selection or another pair of edges in
+    between makes the kernel compute the measure of different trains (a spike exactly on t_end dropped by a half-open
+    selection changes the last interval of the ISI profile, for instance)."""
+    from .rules_wrappers import kernel_calls
+    from .wrappers import wrapper_model
+    wm = wrapper_model(ctx)
+    repo = wm.repo
+    mods = modules or ('pyspike.isi_distance', 'pyspike.spike_distance', 'pyspike.spike_sync', 'pyspike.spike_directionality')
+    obs: List[Ob] = []
+    n_calls = 0
+    for fi in repo.all_functions(pyx=False):
+        if fi.module not in mods:
+            continue
+        calls = kernel_calls(wm, fi)
+        if not calls:
+            continue
+        fn = _fn(fi)
+        stores: Dict[str, List[ast.AST]] = {}
+        for n in _own(fi.node):
+            if isinstance(n, ast.Assign):
+                for t in n.targets:
+                    if isinstance(t, ast.Name):
+                        stores.setdefault(t.id, []).append(n.value)
+                    elif isinstance(t, (ast.Tuple, ast.List)):
+                        for e in t.elts:
+                            if isinstance(e, ast.Name):
+                                stores.setdefault(e.id, []).append(None)
+            elif isinstance(n, (ast.AugAssign, ast.AnnAssign)) and isinstance(n.target, ast.Name):
+                stores.setdefault(n.target.id, []).append(None)
+            elif isinstance(n, (ast.For, ast.comprehension)):
+                for e in ast.walk(n.target):
+                    if isinstance(e, ast.Name):
+                        stores.setdefault(e.id, []).append(None)
+
+        def resolve(e, depth=0):
+            while isinstance(e, ast.Name) and depth < 4 and len(stores.get(e.id, [])) == 1 and stores[e.id][0] is not None:
+                e, depth = stores[e.id][0], depth + 1
+            return e
+
+        def train_like(x) -> bool:
+            return isinstance(x, ast.Name) or (isinstance(x, ast.Subscript) and not isinstance(x.slice, ast.Slice))
+
+        def array_arg(e) -> Optional[str]:
+            e = resolve(e)
+            if isinstance(e, ast.Attribute) and e.attr == 'spikes' and train_like(e.value):
+                return None
+            if isinstance(e, ast.Call) and isinstance(e.func, ast.Attribute) and e.func.attr == 'get_spikes_non_empty' \
+                    and not e.args and not e.keywords and train_like(e.func.value):
+                return None
+            if isinstance(e, ast.Subscript) or isinstance(e, (ast.BinOp, ast.ListComp, ast.GeneratorExp, ast.IfExp)) \
+                    or (isinstance(e, ast.Call) and not (isinstance(e.func, ast.Attribute) and e.func.attr == 'get_spikes_non_empty')):
+                return f"bad: `{ast.unparse(e)[:70]}` is not the train's own array (`<train>.spikes` / `<train>.get_spikes_non_empty()`)"
+            return f"unknown: `{ast.unparse(e)[:70]}`"
+
+        def edge_arg(e, attr) -> Optional[str]:
+            e = resolve(e)
+            if isinstance(e, ast.Attribute) and e.attr == attr and train_like(e.value):
+                return None
+            if isinstance(e, ast.Attribute) and e.attr in ('t_start', 't_end') and train_like(e.value):
+                return f"bad: `{ast.unparse(e)}` is passed where the kernel expects `{attr}`"
+            if isinstance(e, (ast.Constant, ast.BinOp, ast.Subscript)) or (isinstance(e, ast.Call) and isinstance(e.func, ast.Name)
+                                                                        and e.func.id in ('float', 'min', 'max')):
+                return f"bad: `{ast.unparse(e)[:70]}` is not the train's own `{attr}`"
+            return f"unknown: `{ast.unparse(e)[:70]}`"
+        for call, _site, _ks in calls:
+            if 'simulated' in (_site.compiled_module or ''):
+                continue            # (the annealing kernel works on a matrix, not on trains)
+            if len(call.args) < 4 or any(isinstance(a, ast.Starred) for a in call.args[:4]):
+                obs.append(inconclusive(rule, f"{fi.name}: the kernel call passes two spike arrays and two edges positionally", fi.loc(call),
+                                        ast.unparse(call)[:80], construct=f"{fn}::kernel-args"))
+                continue
+            n_calls += 1
+            t = (f"{fi.name}: the kernel `{ast.unparse(call.func)}` receives the trains' own spike arrays and edges (`<train>.spikes` / "
+                 f"`<train>.get_spikes_non_empty()`, `<train>.t_start`, `<train>.t_end`) - nothing selected, sliced or re-framed in between")
+            res = [array_arg(call.args[0]), array_arg(call.args[1]), edge_arg(call.args[2], 't_start'), edge_arg(call.args[3], 't_end')]
+            bad = [r for r in res if r and r.startswith('bad: ')]
+            unk = [r for r in res if r and r.startswith('unknown: ')]
+            if bad:
+                obs.append(violation(rule, t, fi.loc(call), key=f"{fn}::kernel-args::{bad[0][5:65]}", detail=bad[0][5:]))
+            elif unk:
+                obs.append(inconclusive(rule, t, fi.loc(call), unk[0][9:], construct=f"{fn}::kernel-args::{ast.unparse(call.func)}"))
+            else:
+                obs.append(ok(rule, t, fi.loc(call), construct=f"{fn}::kernel-args::{ast.unparse(call.func)}"))
+    if n_calls == 0:
+        obs.append(inconclusive(rule, "kernel calls of the measure modules are found", 'pyspike', construct='kernel-args'))
+    return obs
